@@ -619,7 +619,7 @@ static void enumerate(XMLGrammarPool* pool, std::vector<std::string>& out, bool 
 // ------------------------------------------------------------------------------------------------
 class PRec : public ContentHandler, public ErrorHandler, public XMLEntityResolver, public PSVIHandler {
 public:
-    Dump d; const Case* cs; unsigned long nW, nE, nF; bool psviOn, wantMsg;   // wantMsg: generator debugging only, never compared
+    Dump d; const Case* cs; unsigned long nW, nE, nF; bool psviOn, wantMsg; std::string docBase;   // wantMsg: generator debugging only, never compared
     PRec() : cs(0), nW(0), nE(0), nF(0), psviOn(true), wantMsg(false) {}
     void reset() { d = Dump(); nW = nE = nF = 0; }
     // ContentHandler
@@ -691,6 +691,7 @@ public:
     }
     InputSource* resolveEntity(XMLResourceIdentifier* ri) {
         std::string sys = u8(ri->getSystemId()), loc = u8(ri->getSchemaLocation()), base = u8(ri->getBaseURI());
+        if (base.empty()) base = docBase;      // the DOCTYPE's system id arrives without a base: it is relative to the document
         InputSource* s = 0;
         if (!sys.empty()) { s = serve(sys); if (!s) s = serve(joinUri(base, sys)); }
         if (!s && !loc.empty()) { s = serve(loc); if (!s) s = serve(joinUri(base, loc)); }
@@ -918,12 +919,12 @@ static void cmdPool(const Case& c) {
         for (size_t i = 0; i < c.steps.size(); i++) {
             const Step& st = c.steps[i];
             if (opts(st.opt, "kind", "inst") != "inst") continue;
-            xstr sys = u16(opts(st.opt, "sysid", "file:///xv/doc.xml"));
+            xstr sys = u16(opts(st.opt, "sysid", "file:///xv/p/doc.xml"));
             std::string refDigest;
             PSax2* ps[3] = { pa, pb, pc }; const char* tags[3] = { "A", "B", "C" };
             for (int k = 0; k < 3; k++) {
                 if (!ps[k]) continue;
-                rec->reset();
+                rec->reset(); rec->docBase = u8(sys.c_str());
                 std::vector<std::string> sink;
                 gOut.line("AT\tinst\t" + itos((long long)i) + "\t" + tags[k]); gOut.flush();   // a crash is attributable to (instance, pool)
                 std::string status = guarded("parse", &sink, [&]() {
